@@ -93,6 +93,19 @@ def node_failures(sp, ctx):
             scale = max(scale, LO.opscale(sp, lambda leaf: np.linalg.norm(ctx.leaf_mat(leaf))))
         if not np.linalg.norm(M - ref) <= tol(dt) * scale:
             out.append("matrix")
+        else:
+            # the same block matrix must act on REAL-dtype inputs (single-precision comparison: fft computes real
+            # input in complex64; an operator rejecting real input is skipped)
+            try:
+                with warnings.catch_warnings():
+                    warnings.simplefilter("ignore")
+                    Mr = LO.mat_real(op, op.ishape, dt)
+                if Mr is not None:
+                    rs = max(scale, LO.opscale(sp, lambda leaf: np.linalg.norm(ctx.leaf_mat(leaf))))
+                    if Mr.shape != ref.shape or not np.linalg.norm(Mr - ref) <= 2e-4 * rs:
+                        out.append("matrix:real-input")
+            except Exception as e:
+                out.append("apply-raises:real-input:%s" % type(e.__cause__ or e).__name__)
     return out
 
 
@@ -170,6 +183,101 @@ def st_algebra(draw):
             return c
     dt = c["dtype"]
     return {"tree": {"op": "Scale", "a": c["tree"], "s": LO.st_scalar(draw, False), "side": "r"}, "dtype": dt}
+
+
+# ------------------------------------------------------------------ larger spaces: vector-level reference
+
+
+def big_failures(sp, dt, pseed):
+    try:
+        ro, ri = LO.shape_of(sp)
+        op = LO.build(sp)
+    except Exception:
+        return ["unbuildable"]
+    if list(op.oshape) != list(ro) or list(op.ishape) != list(ri):
+        return ["advertised-shape"]
+    rng = np.random.default_rng(pseed)
+    out = []
+    try:
+        with warnings.catch_warnings():
+            warnings.simplefilter("ignore")
+            for which in ("fwd", "adj"):
+                T = op if which == "fwd" else op.H
+                shp = ri if which == "fwd" else ro
+                for _ in range(2):
+                    x = (rng.standard_normal(shp) + 1j * rng.standard_normal(shp)).astype(dt)
+                    try:
+                        ref = np.asarray(LO.apply_ref(sp, x, adjoint=(which == "adj")))
+                    except Exception:
+                        return out + ["leaf-unavailable"]
+                    y = np.asarray(T(x))
+                    if y.shape != tuple(ro if which == "fwd" else ri):
+                        out.append("output-shape" + ("" if which == "fwd" else ":adjoint"))
+                        return out
+                    sc = max(np.linalg.norm(ref.astype(np.complex128).ravel()), np.linalg.norm(y.astype(np.complex128).ravel()), 1e-30)
+                    err = np.linalg.norm((y - ref).astype(np.complex128).ravel())
+                    if not err <= 10 * tol(dt) * sc:
+                        # relative to the operands (leaf outputs), not to a possibly cancelling sum
+                        sc = max(sc, _operand_scale(sp, x, which == "adj"))
+                    if not err <= 10 * tol(dt) * sc:
+                        out.append("values" + ("" if which == "fwd" else ":adjoint"))
+                        return out
+    except Exception as e:
+        out.append("apply-raises:%s" % type(e.__cause__ or e).__name__)
+    return out
+
+
+def _operand_scale(sp, x, adjoint):
+    """sum over the leaves' output norms along the evaluation (upper bound of the operands' magnitude)."""
+    tot = [0.0]
+
+    def ev(n, v, adj):
+        if n["op"] not in LO.COMBINATORS:
+            y = LO.apply_ref(n, v, adj)
+            tot[0] += float(np.linalg.norm(np.asarray(y, dtype=np.complex128).ravel()))
+            return y
+        return None
+    # cheap bound: evaluate every leaf on an input of the right shape filled from x's norm
+    nx = float(np.linalg.norm(np.asarray(x, dtype=np.complex128).ravel()))
+    for leaf in LO.leaves(sp):
+        try:
+            o, i = LO.shape_of(leaf)
+            shp = o if False else i
+            v = np.full(shp, nx / max(1.0, np.sqrt(A.prod(shp))), dtype=np.asarray(x).dtype)
+            ev(leaf, v, False)
+        except Exception:
+            pass
+    return tot[0]
+
+
+def check_big(case):
+    r = R()
+    sp, dt = case["tree"], case["dtype"]
+    IG = ("unbuildable", "leaf-unavailable")
+    fails = [f for f in big_failures(sp, dt, case["pseed"]) if f not in IG]
+    for c in LO.classes(sp):
+        if c in LO.COMBINATORS:
+            r.label(c)
+    if fails:
+        small = LO.localize(sp, lambda c: c["op"] in LO.COMBINATORS and bool(
+            [f for f in big_failures(c, dt, case["pseed"]) if f not in IG]))
+        sf = [f for f in big_failures(small, dt, case["pseed"]) if f not in IG] or fails
+        for f in sf:
+            r.fail("%s:%s%s:large" % (f, small["op"], _detail(small)), "smallest failing subtree: %s" % LO.sig(small)[:1500])
+    o, i = LO.shape_of(sp)
+    r.label("in>%d" % (100 if A.prod(i) > 100 else 40 if A.prod(i) > 40 else 0))
+    r.nontrivial = A.prod(i) > 40 and any(c in ("Hstack", "Vstack", "Diag", "Add", "Sub", "Compose") for c in LO.classes(sp))
+    r.sig = LO.sig(sp)
+    return r
+
+
+@st.composite
+def st_big(draw):
+    for _ in range(6):
+        c = draw(LO.st_big_tree(max_depth=2, max_in=400, max_out=1200, dim_hi=12))
+        if c["tree"]["op"] in LO.COMBINATORS:
+            return c
+    return c
 
 
 # ------------------------------------------------------------------ rejection of misfits
@@ -309,6 +417,7 @@ PARTS = [
     Part("algebra", check_algebra, {"quick": 2400, "thorough": 60000}, strategy=st_algebra),
     Part("deep", check_algebra, {"quick": 300, "thorough": 12000},
          strategy=lambda: LO.st_tree(max_depth=3, max_in=24, first_round_robin=False)),
+    Part("big", check_big, {"quick": 700, "thorough": 16000}, strategy=st_big),
     Part("reject", check_reject, {"quick": 1600, "thorough": 30000}, strategy=st_reject),
 ]
 
